@@ -337,3 +337,11 @@ def simplify_bool(c):
         xs = [x for x in xs if x != 'false']
         return 'false' if not xs else (xs[0] if len(xs) == 1 else ('or',) + tuple(xs))
     return c
+
+
+def simplify_ite_deep(t):
+    """propagate decided conditions: (ite true a b) -> a .. everywhere in t"""
+    if isinstance(t, str):
+        return t
+    t = (t[0],) + tuple(simplify_ite_deep(x) for x in t[1:])
+    return simplify_ite(t)
